@@ -266,6 +266,19 @@ def transform(members, fn):
     return out
 
 
+def walk_data_references(msg, out):
+    """Collect identifiers of every TSP.DataReference reachable inside a message."""
+    for fd, val in msg.ListFields():
+        if fd.type == fd.TYPE_MESSAGE:
+            rep = fd.is_repeated if hasattr(fd, "is_repeated") else fd.label == fd.LABEL_REPEATED
+            for v in val if rep else [val]:
+                if v.DESCRIPTOR.full_name == "TSP.DataReference":
+                    out.append(v.identifier)
+                else:
+                    walk_data_references(v, out)
+    return out
+
+
 def walk_references(msg, out):
     """Collect identifiers of every TSP.Reference reachable inside a message."""
     for fd, val in msg.ListFields():
